@@ -164,6 +164,7 @@ func init() {
 	}
 	externals["(*strings.Builder).Reset"] = func(fr *frame, args []value) value {
 		st, _ := sbGet(fr, args[0])
+		fr.i.x.onStore(&st[1])
 		st[1] = ""
 		return nil
 	}
@@ -281,7 +282,7 @@ func init() {
 	symModels["strconv.Itoa"] = func(fr *frame, args []value) value {
 		x, tb := fr.i.x, fr.i.x.tb
 		t := x.term(args[0])
-		return x.mkSym(types.String, tb.Ite(tb.Lt(t, tb.IntC(0)), tb.Concat(tb.StrC("-"), tb.StrFromInt(tb.Neg(t))), tb.StrFromInt(t)))
+		return x.mkSym(types.String, tb.Itoa(t))
 	}
 	symModels["strconv.Atoi"] = func(fr *frame, args []value) value {
 		// (n, err): digit strings (optionally signed) parse; anything else is an error.
@@ -305,6 +306,24 @@ func init() {
 	symModels["strconv.ParseFloat"] = func(fr *frame, args []value) value {
 		x, tb := fr.i.x, fr.i.x.tb
 		s := x.term(args[0])
+		// a joined string ite(c, A, B): resolve c first (one-sided under the path condition in the usual case)
+		for s.Op == "ite" {
+			if _, ok := canonicalIntOf(tb, s); ok {
+				break
+			}
+			if x.decide(s.Args[0]) {
+				s = s.Args[1]
+			} else {
+				s = s.Args[2]
+			}
+		}
+		if s.IsConst() {
+			f, err := strconv.ParseFloat(s.S, 64)
+			if err != nil {
+				return tuple{f, fr.i.mkError(err.Error())}
+			}
+			return tuple{f, iface{}}
+		}
 		if v, ok := canonicalIntOf(tb, s); ok {
 			return tuple{sym{types.Float64, tb.ToReal(v)}, iface{}}
 		}
@@ -402,6 +421,23 @@ func canonicalIntOf(tb *smt.Table, s *smt.Term) (*smt.Term, bool) {
 	if s.Op == "str.from_int" {
 		return s.Args[0], true
 	}
+	if k, ok := tb.ItoaArg(s); ok {
+		return k, true
+	}
+	if s.IsConst() {
+		if n, err := strconv.ParseInt(s.S, 10, 64); err == nil && strconv.FormatInt(n, 10) == s.S {
+			return tb.IntC(n), true
+		}
+		return nil, false
+	}
+	if s.Op == "ite" {
+		a, ok1 := canonicalIntOf(tb, s.Args[1])
+		b, ok2 := canonicalIntOf(tb, s.Args[2])
+		if ok1 && ok2 {
+			return tb.Ite(s.Args[0], a, b), true
+		}
+		return nil, false
+	}
 	if s.Op == "ite" && s.Args[2].Op == "str.from_int" {
 		k := s.Args[2].Args[0]
 		if s.Args[0] == tb.Lt(k, tb.IntC(0)) && s.Args[1] == tb.Concat(tb.StrC("-"), tb.StrFromInt(tb.Neg(k))) {
@@ -488,13 +524,13 @@ func sprintfModel(fr *frame, args []value) value {
 			out = x.concat(out, sv)
 		case (verb == 'd' || verb == 'v') && isIntKind(sv.k) && spec == "%"+string(verb):
 			t := sv.t
-			out = x.concat(out, x.mkSym(types.String, tb.Ite(tb.Lt(t, tb.IntC(0)), tb.Concat(tb.StrC("-"), tb.StrFromInt(tb.Neg(t))), tb.StrFromInt(t))))
+			out = x.concat(out, x.mkSym(types.String, tb.Itoa(t)))
 		case verb == 'f' && isFloatKind(sv.k) && spec == "%.0f":
 			// k = round-to-nearest integer of the real value (ties: either neighbour)
 			k := x.fresh("rk", smt.Int)
 			half := tb.RatC(big.NewRat(1, 2))
 			x.assume(tb.And(tb.Le(tb.Sub(tb.ToReal(k), sv.t), half), tb.Le(tb.Sub(sv.t, tb.ToReal(k)), half)))
-			out = x.concat(out, x.mkSym(types.String, tb.Ite(tb.Lt(k, tb.IntC(0)), tb.Concat(tb.StrC("-"), tb.StrFromInt(tb.Neg(k))), tb.StrFromInt(k))))
+			out = x.concat(out, x.mkSym(types.String, tb.Itoa(k)))
 		case (verb == 't' || verb == 'v') && sv.k == types.Bool:
 			out = x.concat(out, x.mkSym(types.String, tb.Ite(sv.t, tb.StrC("true"), tb.StrC("false"))))
 		case verb == 'q' && sv.k == types.String:
